@@ -17,6 +17,8 @@ while read -r commit prop name; do
   f=$(echo "$out" | grep -m1 '^VIOLATION' | sed 's/.*replay=\([^ ]*\).*/\1/')
   if [ -n "$f" ] && [ -f "$f" ] && [[ "$f" == /verif/replays/* ]]; then
     cp "$f" "/verif/regressions/$name.json"; echo "OK   $name <- $(basename "$f")"
+  elif echo "$out" | grep -q "regressions/$name.json (regression file reproduces"; then
+    echo "KEPT $name: the existing file still reproduces the defect with $commit reverted"
   else
     echo "NONE $name: no violation with $commit reverted ($(echo "$out" | tail -1))"
   fi
